@@ -523,6 +523,30 @@ func fieldSource(ld *ssa.UnOp) (string, bool) {
 	return "", false
 }
 
+// decodedListField: sl is the value of a `[]*T` field of a JSON-decoded request struct
+// (google.golang.org/api/storage/v1): encoding/json stores nil for a `null` element.
+// Repeated protobuf fields are not sources: the wire decoder allocates every element.
+func decodedListField(sl ssa.Value) (string, bool) {
+	ld, ok := core.Strip(sl).(*ssa.UnOp)
+	if !ok || ld.Op != token.MUL {
+		return "", false
+	}
+	fa, ok := ld.X.(*ssa.FieldAddr)
+	if !ok {
+		return "", false
+	}
+	st, ok := ld.Type().Underlying().(*types.Slice)
+	if !ok || !isPtr(st.Elem()) {
+		return "", false
+	}
+	owner := core.NamedOf(fa.X.Type())
+	if owner == nil || owner.Obj().Pkg() == nil || owner.Obj().Pkg().Path() != pkgStorageV1 {
+		return "", false
+	}
+	_, fname, _ := core.FieldName(fa)
+	return owner.Obj().Name() + "." + fname, true
+}
+
 // decodeTargets: cells whose address is handed to a JSON decoder.
 func decodeTarget(cell *ssa.Alloc) bool {
 	for _, f := range core.Family(core.Root(cell.Parent())) {
@@ -646,6 +670,10 @@ func (n *nilAnalysis) evalRaw(v ssa.Value, at *ssa.BasicBlock, seen map[ssa.Valu
 			return nilEval{kind: nkMaybe, raw: nkMaybe, label: "optional field " + lbl}
 		}
 		if ia, ok := x.X.(*ssa.IndexAddr); ok {
+			// element of a list field of a JSON-decoded request struct: `[null]` decodes to a nil element
+			if lbl, ok := decodedListField(n.resolveAt(ia.X)); ok {
+				return nilEval{kind: nkMaybe, raw: nkMaybe, label: "element of JSON-decoded list " + lbl + " (a `null` element decodes to nil)"}
+			}
 			// element of a locally built slice: union over everything appended to it
 			return n.evalSliceElems(ia.X, seen)
 		}
